@@ -89,11 +89,11 @@ Proof. repeat split; reflexivity. Qed.
    walk of the prefix ends on, together with path_split's last component (C01's
    refinement composed with the split; premise on check_current as in C01) *)
 Theorem C14_static_parent_object :
-  forall s rp fz o2 pfuel gh ps df rs t root path dirp name,
-    fz <> 0%nat -> StaticProofs.chk_static_ok s rp (OpathM.check_current fz o2 pfuel gh) -> wf s df -> StaticProofs.links_ok s ->
+  forall s rp F fz o2 pfuel gh ps df rs t root path dirp name,
+    StaticProofs.closed s -> fz <> 0%nat -> StaticProofs.chk_static_ok s rp F (OpathM.check_current fz o2 pfuel gh) -> wf s df -> StaticProofs.links_ok s ->
     rs_kernel rs = false ->
     path_split path = Some (Ok (dirp, Some name)) -> has_nul dirp = false ->
-    Static.tget t root = Some ROOT ->
+    StaticProofs.Frame s F t -> Static.tget t root = Some ROOT ->
     match ewalk s dirp false (has (rs_flags rs) RESOLVE_NO_SYMLINKS) with
     | WOk o => exists t' fd, Static.run s rp t (parent_and_name fz o2 pfuel gh ps rs root path) = Static.Done t' (Ok (fd, name))
                              /\ Static.tget t' fd = Some o
